@@ -351,6 +351,16 @@ async def e2e(net, hyg, plan):
         else:
             await do_list()
             await do_stat()
+        if plan.get("now2") and shim_ok:
+            # the same server process lists the same entries again at another 'current time': what is formatted and parsed
+            # follows that time (nothing about an earlier listing is remembered)
+            now = plan["now2"]
+            _Clock.now = now
+            for name_, (typ_, size_, mtime_) in list(entries.items()):
+                if abs(now - mtime_ - H) < 86400 + 5:
+                    entries.pop(name_)      # inside the ambiguous window of the second 'now': not judged
+            mon["relisted_at_another_time"] = mon.get("relisted_at_another_time", 0) + 1
+            await do_list()
         mon["mlsx_entries"] += 0
         await c.quit()
         await w.stop()
@@ -472,6 +482,8 @@ def gen_cases(tier, seed):
                       "dirname": rng.choice(["dir", "dir", "-tmp", "-la", "d ir", "-R"]), "relative": rng.random() < 0.5,
                       "now": rng.choice(special) if i % 2 else rng.randrange(946684800, 2208988800),
                       "encoding": [None, None, "latin-1"][i % 3]})
+        if i % 2 == 0 and plans[-1]["n"] <= 34:
+            plans[-1]["now2"] = plans[-1]["now"] + rng.choice([60, 86400 * 30, 86400 * 200, 86400 * 400, -86400 * 200])
     # the file-system back ends on a real directory (entries with real sizes and mtimes set by utime)
     for i in range(12 if tier == "quick" else 200):
         plans.append({"fs": ["pathio", "async"][i % 2], "seed": seed * 11 + i, "n": rng.choice([0, 1, 5, 31, 32, 33, 34, 64, 65, 66, 100, 130]),
